@@ -41,7 +41,10 @@ Pool == <<
   [t |-> NIdx(NBin("..", NId("I"), NId("J")), NInt(9)), env |-> [I |-> IntV(0), J |-> IntV(4)]],
   \* a function member that is a closure over its own environment value, in two environments
   [t |-> NCall("VarI", <<NInt(1)>>), env |-> [I |-> IntV(10)]],
-  [t |-> NCall("VarI", <<NInt(1)>>), env |-> [I |-> IntV(20)]]
+  [t |-> NCall("VarI", <<NInt(1)>>), env |-> [I |-> IntV(20)]],
+  \* a pattern computed at run time: a valid one, and one that is not a regular expression
+  [t |-> NBin("matches", NId("S"), NId("T")), env |-> [S |-> Str("abc"), T |-> Str("b")]],
+  [t |-> NBin("matches", NId("S"), NId("T")), env |-> [S |-> Str("abc"), T |-> Str("(")]]
 >>
 
 VARIABLES hist,    \* sequence of pool indices
